@@ -558,7 +558,13 @@ fn merge_consecutive_projections_one_level(
 
     // A fast path: if the previous projection is same as the current projection
     // we can directly remove the current projection and return child projection.
-    if prev_projection.expr == expr {
+    // This is only valid when the projection is idempotent, i.e. every expression is
+    // a plain column reference: `s + 4 AS s` over `s + 4 AS s` is structurally equal,
+    // but the outer `s` is the OUTPUT of the inner projection (the result must be
+    // `s + 8`), so such projections go through the general substitution path below.
+    if prev_projection.expr == expr
+        && expr.iter().all(|e| matches!(e, Expr::Column(_)))
+    {
         return Projection::try_new_with_schema(
             expr,
             Arc::clone(&prev_projection.input),
